@@ -288,6 +288,22 @@ func execute(cs Case, wantC06, wantC07 bool) runOut {
 			e = treefs.Expect{Class: treefs.MustOK}
 			goto judged
 		}
+		if e.Class == treefs.Either {
+			// both outcomes are acceptable (error, or the stated effect): the cache's own answer
+			// decides which one the fold continues with
+			r := fsx.Exec(w.cache, op)
+			if r.Panic != "" {
+				add("C06", "op-panic/"+op.Kind, "cache operations do not panic", r.Panic)
+				return out
+			}
+			if r.Err == "" {
+				if e.After != nil {
+					ov = e.After
+				}
+				dirty = true
+			}
+			goto judged
+		}
 		if e.Class != treefs.MustOK && e.Class != treefs.MustFail {
 			out.skipped = true
 			return out
@@ -915,6 +931,9 @@ func run(prop string) func(c *fw.Ctx) {
 				d := depth
 				if disk {
 					d = depth - 1
+				}
+				if c07 && depth == 4 && !disk && ri != 1 && ri != 2 {
+					d = 3 // C07 thorough: the read sweeps make depth 4 affordable on two of the four remotes only
 				}
 				stop := false
 				histories(alpha, d, func(h []treefs.Op) {
